@@ -5,16 +5,21 @@ import CookModel.Lemmas.CoverEvents
 import CookModel.Lemmas.CoverAll
 import CookModel.Lemmas.CoverInput
 import CookModel.Lemmas.TableFacts
+import CookModel.Lemmas.CoverAudit
 /-
   C05  No recipe content is silently dropped.
 
-  Proved here (for every token run / token stream and every character table whose `alnum` does not
-  contain the backslash): (1) a line pulled by the block splitter and the rest re-assemble the
-  stream (nothing is lost by `pull_line`); (2) inside a text run every letter or digit of every
-  non-comment token appears in the assembled text — only comments, the newline itself and the
-  backslash of an escape are not content.  The whole-document clause (every alphanumeric character
-  outside comments lies inside the span of some event whenever there is no error event) is decided
-  per run by the oracle on the implementation's event spans and by the event correspondence.
+  Proved here, for every input, extension set, number type and every character table satisfying the
+  stated side conditions (`AlnumSpec`, `CommentSpec`: true of the Unicode tables, checked
+  exhaustively over all code points by the harness on every run):
+  * splitter level: `pull_line`/`next_block` lose only blank tokens, with multiplicity;
+  * text runs: every token that is not a comment lies inside a FRAGMENT of the assembled text;
+  * event level, every block shape and the whole input (`C05_conservation`): every letter or digit
+    lies inside a comment token or inside the span of a text / ingredient / cookware / timer /
+    metadata / section / front-matter event — no error-free premise needed;
+  * audit wave: "comment" made independent of the lexer (`C05_comment_scanner_agrees`,
+    `C05_conservation_independent_scanner`), the property as worded (`C05_holds_as_worded`).
+  Clause table and remaining gaps: notes/audit-C05.md.
 -/
 namespace Cook
 
@@ -365,5 +370,91 @@ theorem C05_conservation_real {α : Type} [Arith α] (ext : Ext) (input a z : Li
     InComment realCharSpec input (utf8Len a) (utf8Len a + c.utf8Size) ∨
     BytesCovered (pullEvents (α := α) realCharSpec ext input).1 (utf8Len a) (utf8Len a + c.utf8Size) :=
   C05_conservation (cs := realCharSpec) (hs := C05_alnumSpec_real) ext input a z c hin ha
+/-! ## audit wave (notes/audit-C05.md): an independent notion of "comment", the literal statement -/
+
+/-- **`comment_scanner_agrees`** (DESIGN.md §6 C05).  `cscan` is a character-level state machine that
+    knows nothing about tokens: a backslash protects the next character; `--` starts a comment that
+    runs up to (not including) the next line feed; `[-` starts a comment that runs up to and
+    including the first `-]` after it, or to the end of the text.  For every character table whose
+    white-space class and word characters contain none of backslash, `-`, `[` (`CommentSpec`; true of
+    the real tables: `is_word_char` lists `-` and excludes punctuation), every text and every offset:
+    the characters the scanner flags are EXACTLY the characters of the lexer's `LineComment` /
+    `BlockComment` tokens (`tokMask`: one flag per character, in order).  So "inside a comment token"
+    in `C05_conservation` cannot silently mean more than "inside a comment": a lexer that let a
+    comment run over the next line, or that opened one after an escaping backslash, would not satisfy
+    this equation. -/
+theorem C05_comment_scanner_agrees (cs : CharSpec) (hs : CommentSpec cs) (off : Nat) (s : List Char) :
+    tokMask (lexFrom cs off s) = cscan .normal s :=
+  cscan_agrees cs hs off s
+
+/-- **C05 for every input, with the independent comment scanner and the event kinds spelled out.**
+    `commentMask cs input` has one flag per CHARACTER of the input: `false` for everything before the
+    cooklang body (blank lines, fences, YAML text), `cscan` over the body.  For every input, every
+    extension set, every number type and every character table satisfying `AlnumSpec` and
+    `CommentSpec`: each letter or digit of the input — character number `a.length`, bytes
+    `utf8Len a .. utf8Len a + c.utf8Size`, when `input = a ++ c :: z` — is flagged as comment by the
+    scanner, or lies inside the source span of an event of `PullParser` run to completion that is a
+    text, ingredient, cookware, timer, metadata entry, named section or the front matter
+    (`CoveredByContent`; diagnostics and `Start`/`End` markers never count).  The statement is by
+    POSITION, so it counts with multiplicity: two equal letters at different places are two
+    obligations.  Strengthens `C05_conservation` (whose `InComment` refers to the lexer's tokens). -/
+theorem C05_conservation_independent_scanner {α : Type} [Arith α] (cs : CharSpec) (hs : AlnumSpec cs)
+    (hcs : CommentSpec cs) (ext : Ext) (input a z : List Char) (c : Char)
+    (hin : input = a ++ c :: z) (ha : cs.alnum c = true) :
+    (commentMask cs input)[a.length]? = some true ∨
+    CoveredByContent (pullEvents (α := α) cs ext input).1 (utf8Len a) (utf8Len a + c.utf8Size) := by
+  rcases cau_input_conservation (α := α) cs hs hcs ext input a z c hin ha with h | h
+  · exact Or.inl h
+  · exact Or.inr (cau_covered_content h)
+
+/-- **The property as it is worded**, premise included: WHENEVER the event stream of an input
+    contains no `Error` event (`ErrorFree`), every letter or digit of the input that the comment
+    scanner does not flag lies within the span of some emitted event: text, ingredient, cookware,
+    timer, metadata entry, section name or front matter.  (The premise is not used: the model never
+    drops a letter or digit, with or without errors — `C05_conservation_independent_scanner`.  The
+    property allows content to go missing next to an `Error`; the code, as modelled, does not make
+    use of that.) -/
+theorem C05_holds_as_worded {α : Type} [Arith α] (cs : CharSpec) (hs : AlnumSpec cs)
+    (hcs : CommentSpec cs) (ext : Ext) (input a z : List Char) (c : Char)
+    (_hne : ErrorFree (pullEvents (α := α) cs ext input).1)
+    (hin : input = a ++ c :: z) (ha : cs.alnum c = true)
+    (hnc : (commentMask cs input)[a.length]? ≠ some true) :
+    CoveredByContent (pullEvents (α := α) cs ext input).1 (utf8Len a) (utf8Len a + c.utf8Size) := by
+  rcases C05_conservation_independent_scanner (α := α) cs hs hcs ext input a z c hin ha with h | h
+  · exact absurd h hnc
+  · exact h
+
+/-- Only the seven listed kinds of events can cover: `Error`, `Warning`, `Start`, `End` and a section
+    without name have no covering span, so `BytesCovered` in `C05_conservation` never refers to a
+    diagnostic's label or to a block marker. -/
+theorem C05_only_content_events_cover {α : Type} [Arith α] (ev : Ev α) (sp : Span)
+    (h : ev.covSpan = some sp) : ev.isContentKind = true :=
+  cau_covSpan_kind h
+
+/-! non-vacuity.  The toy table satisfies `CommentSpec`.  The scanner on
+    `a -- c⏎b [- x -] \-- d`: the line comment `-- c` (not the line feed), the block comment
+    `[- x -]`; the `--` after the backslash is NOT a comment (the backslash protects the first `-`,
+    the second is a lone minus) and `d` is content. -/
+example : CommentSpec toyCharSpec := toyCharSpec_commentSpec
+example : cscan .normal "a -- c\nb [- x -] \\-- d".toList =
+    [false, false, true, true, true, true, false,
+     false, false, true, true, true, true, true, true, true, false,
+     false, false, false, false, false] := by decide
+example : tokMask (lexFrom toyCharSpec 0 "a -- c\nb [- x -] \\-- d".toList) =
+    cscan .normal "a -- c\nb [- x -] \\-- d".toList := by decide +kernel
+/-! an unclosed block comment runs to the end; `[-]` does not close (`-]` must follow the `[-`) -/
+example : cscan .normal "[-] x".toList = [true, true, true, true, true] := by decide
+
+/-! `Mix @salt{1} -- c`: no error event; the `c` (character 16) is flagged by the scanner, the `M`
+    (character 0) is not and is covered by the first text event (`C05_holds_as_worded` applies with
+    `a = []`) -/
+example : (commentMask toyCharSpec "Mix @salt{1} -- c".toList)[16]? = some true ∧
+    (commentMask toyCharSpec "Mix @salt{1} -- c".toList)[0]? = some false := by
+  have h : parseFrontmatter toyCharSpec "Mix @salt{1} -- c".toList = none := by decide +kernel
+  unfold commentMask
+  rw [h]
+  constructor <;> decide +kernel
+example : ((pullEvents (α := Rat) toyCharSpec ⟨0⟩ "Mix @salt{1} -- c".toList).1.toList.all
+    (fun ev => match ev with | .error _ => false | _ => true)) = true := by decide +kernel
 
 end Cook
